@@ -38,6 +38,9 @@ type conn struct {
 // ErrClosed represents a error.
 var ErrClosed = errors.New("network closed")
 
+// ErrTooManyPendingRequests is returned when every request index of the connection is in use.
+var ErrTooManyPendingRequests = errors.New("too many pending requests")
+
 func dial(ctx context.Context) (net.Conn, error) {
 	u := core.GetClientContext(ctx).URL
 	var d net.Dialer
@@ -65,18 +68,25 @@ func newConn(ctx context.Context, onConnect func(net.Conn) net.Conn, onClose fun
 	}, nil
 }
 
-func (c *conn) store(index int, resultChan chan data) {
+// store registers resultChan under index; it reports false, and does nothing, when a call
+// that is still pending holds that index.
+func (c *conn) store(index int, resultChan chan data) bool {
 	c.lock.Lock()
 	if c.closeErr != nil {
 		// registered after Close: nobody would ever clean this entry
 		err := c.closeErr
 		c.lock.Unlock()
 		resultChan <- data{Index: index, Error: err}
-		return
+		return true
+	}
+	if _, pending := c.results[index]; pending {
+		c.lock.Unlock()
+		return false
 	}
 	verifEvent("store", c, index)
 	c.results[index] = resultChan
 	c.lock.Unlock()
+	return true
 }
 
 func (c *conn) delete(index int) {
@@ -123,7 +133,13 @@ func (c *conn) Transport(ctx context.Context, request []byte) (response []byte, 
 	index := int(atomic.AddInt32(&c.counter, 1) & 0x7fff)
 	resultChan := make(chan data, 1)
 	verifYield("before-store", c, index)
-	c.store(index, resultChan)
+	// the index has 15 bits: skip the indices of calls that are still pending
+	for tries := 0; !c.store(index, resultChan); tries++ {
+		if tries > 0x7fff {
+			return nil, ErrTooManyPendingRequests
+		}
+		index = int(atomic.AddInt32(&c.counter, 1) & 0x7fff)
+	}
 	verifYield("after-store", c, index)
 	verifYield("before-enqueue", c, index)
 	select {
